@@ -1,5 +1,32 @@
 // Spec side of unit `seq` (C12): specification only. Shims list ALL fields of the real structs.
 
+pub mod verif_seq_std {
+    use vstd::prelude::*;
+    /// peer identity (opaque here; Hash/Eq consistent -- assumed)
+    #[verifier::external_body]
+    pub struct UserId { _p: [u8; 32] }
+    impl Clone for UserId {
+        #[verifier::external_body]
+        fn clone(&self) -> (r: Self) ensures r == *self { unimplemented!() }
+    }
+    impl PartialEq for UserId {
+        #[verifier::external_body]
+        fn eq(&self, other: &UserId) -> (r: bool) ensures r == (*self == *other) { unimplemented!() }
+    }
+    impl Eq for UserId {}
+    impl std::hash::Hash for UserId {
+        #[verifier::external_body]
+        fn hash<H: std::hash::Hasher>(&self, state: &mut H) { unimplemented!() }
+    }
+    #[verifier::external_body]
+    pub broadcast proof fn axiom_user_id_key_model()
+        ensures #[trigger] vstd::std_specs::hash::obeys_key_model::<UserId>(),
+    {}
+}
+pub use verif_seq_std::*;
+broadcast use verif_seq_std::axiom_user_id_key_model;
+use std::collections::HashMap;
+
 pub struct MonotonicCounterSystem {}
 pub struct SequenceEntry {
     pub sequence: u64,
@@ -35,6 +62,15 @@ impl PeerCounter {
 #[verifier::external_body]
 fn current_timestamp() -> (r: u64)
     ensures r < 0x1_0000_0000_0000
+{ unimplemented!() }
+
+/// `v.retain(p)`: keeps exactly the elements satisfying p, in order (std docs; the extraction renames the call)
+#[verifier::external_body]
+pub fn verif_retain<P: Fn(&SequenceEntry) -> bool>(v: &mut Vec<SequenceEntry>, p: P, Ghost(f): Ghost<spec_fn(SequenceEntry) -> bool>)
+    requires
+        forall|x: &SequenceEntry| #[trigger] call_requires(p, (x,)),
+        forall|x: &SequenceEntry, b: bool| #[trigger] call_ensures(p, (x,), b) ==> b == f(*x),
+    ensures final(v)@ == old(v)@.filter(f),
 { unimplemented!() }
 
 // ---- history-level lemmas over the contracts -------------------------------------------
@@ -74,4 +110,65 @@ proof fn lemma_accept_at_most_once(accepted: Seq<u64>, i: int, j: int)
     ensures accepted[i] != accepted[j]
 {
     lemma_accepted_are_1_2_3(accepted);
+}
+
+// ---- the critical section of validate_sequence (validate + apply under ONE write guard) --------------
+/// Stands for `counters.entry(k).or_insert_with(PeerCounter::new)` (the extraction renames exactly that
+/// call): the existing counter, or a freshly inserted PeerCounter::new() (contract verified in this unit:
+/// last == 0, empty history).
+#[verifier::external_body]
+pub fn verif_entry_or_new(m: &mut HashMap<UserId, PeerCounter>, k: UserId) -> (r: &mut PeerCounter)
+    ensures
+        old(m)@.contains_key(k) ==> *r == old(m)@[k],
+        !old(m)@.contains_key(k) ==> r.last_valid_sequence == 0 && r.sequence_history@.len() == 0,
+        final(m)@ == old(m)@.insert(k, *final(r)),
+{
+    unimplemented!()
+}
+/// a peer's high-water mark (0 for a peer never seen: an absent entry is the same as PeerCounter::new())
+pub open spec fn last_of_peer(m: Map<UserId, PeerCounter>, u: UserId) -> int {
+    if m.contains_key(u) { m[u].last_valid_sequence as int } else { 0 }
+}
+pub open spec fn seen_by_peer(m: Map<UserId, PeerCounter>, u: UserId, seq: u64, hash: [u8; 32]) -> bool {
+    m.contains_key(u) && seen(&m[u], seq, hash)
+}
+/// every peer other than `u` is untouched
+pub open spec fn others_untouched(m0: Map<UserId, PeerCounter>, m1: Map<UserId, PeerCounter>, u: UserId) -> bool {
+    forall|v: UserId| v != u ==> (m1.contains_key(v) == m0.contains_key(v) && (m0.contains_key(v) ==> m1[v] == m0[v]))
+}
+// ---- the critical section of batch_update ----------------------------------------------------------
+pub struct BatchUpdateRequest {
+    pub user_id: UserId,
+    pub sequence: u64,
+    pub message_hash: [u8; 32],
+    pub timestamp: u64,
+}
+pub struct BatchUpdateResult {
+    pub user_id: UserId,
+    pub result: SequenceValidationResult,
+    pub applied: bool,
+}
+/// every tracked peer has room for `room` more accepts before the end of the u64 range (fewer than 2^64
+/// accepts per peer: a precondition, see the trusted base)
+pub open spec fn below_max(m: Map<UserId, PeerCounter>, room: int) -> bool {
+    forall|u: UserId| m.contains_key(u) ==> (#[trigger] m[u]).last_valid_sequence + room < u64::MAX
+}
+/// what the batch has established after processing the first n requests
+pub open spec fn batch_inv(reqs: Seq<BatchUpdateRequest>, res: Seq<BatchUpdateResult>, m: Map<UserId, PeerCounter>, n: int) -> bool {
+    &&& res.len() == n
+    &&& forall|k: int| 0 <= k < n ==> (#[trigger] res[k]).user_id == reqs[k].user_id && res[k].applied == (res[k].result == SequenceValidationResult::Valid)
+    // an applied request's number is at or below its peer's high-water mark from then on
+    &&& forall|k: int| 0 <= k < n && (#[trigger] res[k]).applied ==> last_of_peer(m, reqs[k].user_id) >= reqs[k].sequence
+    // the same (peer, number) was applied at most once so far
+    &&& forall|i: int, j: int| 0 <= i < j < n && (#[trigger] reqs[i]).user_id == (#[trigger] reqs[j]).user_id && reqs[i].sequence == reqs[j].sequence
+            ==> !(res[i].applied && res[j].applied)
+}
+
+/// Same (peer, number) twice: by the contract of the critical section, the first acceptance sets last == n,
+/// and a submission is accepted only for last + 1, so the second one (in any later state, `last` never
+/// decreasing) is not accepted. Stated over the contract's pre/post values.
+proof fn lemma_same_number_accepted_at_most_once(last0: int, n: int, last1: int, last2: int)
+    requires n == last0 + 1, last1 == n, last2 >= last1,
+    ensures n != last2 + 1, // @C12/system/same_peer_and_number_accepted_at_most_once
+{
 }
